@@ -319,8 +319,13 @@ func runXtplCase(r *Rng, out *outFiles, work string, idx int) {
 				}
 				val.WriteString("}")
 			}
+			tail := ""
+			if r.Chance(25) { // the line sits inside a fragment definition: the file's tree contains it ONCE
+				lead += fmt.Sprintf(`<i %sdefine="fr%d_%d">`, ap, f, ln)
+				tail = "</i>"
+			}
 			open := lead + "<p " + ap + attr + "=" + delim
-			lineText := open + val.String() + delim + ">z</p>"
+			lineText := open + val.String() + delim + ">z</p>" + tail
 			for _, p0 := range ps {
 				all := []struct {
 					c   xCall
